@@ -101,4 +101,39 @@ example : ∀ i j, i < 1 → j < 1 →
   subst_vars
   simp [daun0_zero_zero]
 
+/-! ### exactness on the range, and bounded noise amplification, for every linear inverse -/
+
+/-- **exactness on the range of the forward model**, any method with `T·A = 1`, any size: data that *are* a forward image are
+    inverted to exactly their source (the case ε = 0 of the reduction lemma) -/
+theorem inverse_exact_on_range (n : ℕ) (T A : ℕ → ℕ → ℝ)
+    (hTA : ∀ i j, i < n → j < n → ∑ k ∈ range n, T i k * A k j = if i = j then 1 else 0)
+    (f : ℕ → ℝ) (i : ℕ) (hi : i < n) :
+    ∑ k ∈ range n, T i k * (∑ j ∈ range n, A k j * f j) = f i := by
+  have h := inverse_error_le n T A hTA f (fun k => ∑ j ∈ range n, A k j * f j) 0 (fun k _ => by simp) i hi
+  simp only [mul_zero] at h
+  have := abs_nonpos_iff.mp h
+  linarith
+
+/-- **noise amplification is bounded by the row sum**: two data sets that differ by at most `ε` at every pixel are reconstructed to
+    within `‖T_i‖₁ · ε` of each other — for every linear inverse operator, with no assumption on `T` -/
+theorem inverse_stability (n : ℕ) (T : ℕ → ℕ → ℝ) (P Q : ℕ → ℝ) (ε : ℝ) (h : ∀ k, k < n → |P k - Q k| ≤ ε) (i : ℕ) :
+    |∑ k ∈ range n, T i k * P k - ∑ k ∈ range n, T i k * Q k| ≤ (∑ k ∈ range n, |T i k|) * ε := by
+  rw [← Finset.sum_sub_distrib]
+  calc |∑ k ∈ range n, (T i k * P k - T i k * Q k)|
+      ≤ ∑ k ∈ range n, |T i k * P k - T i k * Q k| := Finset.abs_sum_le_sum_abs _ _
+    _ = ∑ k ∈ range n, |T i k| * |P k - Q k| := by
+        apply Finset.sum_congr rfl; intro k _; rw [← mul_sub, abs_mul]
+    _ ≤ ∑ k ∈ range n, |T i k| * ε := by
+        apply Finset.sum_le_sum; intro k hk
+        exact mul_le_mul_of_nonneg_left (h k (mem_range.mp hk)) (abs_nonneg _)
+    _ = (∑ k ∈ range n, |T i k|) * ε := by rw [Finset.sum_mul]
+
+/-- the two together: noisy samples of a forward image are reconstructed to within the amplified noise -/
+theorem noisy_range_recovered_within (n : ℕ) (T A : ℕ → ℕ → ℝ)
+    (hTA : ∀ i j, i < n → j < n → ∑ k ∈ range n, T i k * A k j = if i = j then 1 else 0)
+    (f e : ℕ → ℝ) (ε : ℝ) (he : ∀ k, k < n → |e k| ≤ ε) (i : ℕ) (hi : i < n) :
+    |∑ k ∈ range n, T i k * ((∑ j ∈ range n, A k j * f j) + e k) - f i| ≤ (∑ k ∈ range n, |T i k|) * ε := by
+  refine inverse_error_le n T A hTA f _ ε (fun k hk => ?_) i hi
+  simpa using he k hk
+
 end PyAbel.C01
